@@ -93,6 +93,14 @@ LEVEL_NAMES = {
 }
 
 
+INT_LEVELS = [10, 2, -3, 25, 7]  # numeric order differs from text order
+
+
+def int_level(i):
+    """i-th (0-based) level value of an integer-coded factor."""
+    return INT_LEVELS[i] if i < len(INT_LEVELS) else 30 + i
+
+
 def level_names(var, n):
     if var in LEVEL_NAMES:
         return LEVEL_NAMES[var][:n]
@@ -117,7 +125,7 @@ def factorial_spec(levels, reps, seed=0, catkinds=None, numerics=("x", "z", "w")
     cols = []
     for j, name in enumerate(names):
         if name in int_coded:
-            cols.append({"name": name, "kind": "int", "values": [c[j] + 1 for c in cells]})
+            cols.append({"name": name, "kind": "int", "values": [int_level(c[j]) for c in cells]})
             continue
         lv = level_names(name, levels[name])
         vals = [lv[c[j]] for c in cells]
@@ -125,7 +133,8 @@ def factorial_spec(levels, reps, seed=0, catkinds=None, numerics=("x", "z", "w")
         if kind == "str":
             cols.append({"name": name, "kind": "str", "values": vals})
         elif kind == "cat":
-            cols.append({"name": name, "kind": "cat", "values": vals, "categories": sorted(lv), "ordered": False})
+            # unordered Categorical whose declared categories are deliberately not in sorted order
+            cols.append({"name": name, "kind": "cat", "values": vals, "categories": list(lv), "ordered": False})
         else:
             cols.append({"name": name, "kind": "cat", "values": vals, "categories": lv, "ordered": True})
     for j, name in enumerate(numerics):
@@ -158,15 +167,15 @@ def random_frame(draw, cat_vars=("f", "g", "h"), num_vars=("x", "z"), int_vars=(
         if kind == "str":
             cols.append({"name": name, "kind": "str", "values": vals})
         elif kind == "cat":
-            cols.append({"name": name, "kind": "cat", "values": vals, "categories": sorted(lv_present), "ordered": False})
+            cols.append({"name": name, "kind": "cat", "values": vals, "categories": lv_present[::-1] if seed % 2 else lv_present, "ordered": False})
         else:
             cols.append({"name": name, "kind": "cat", "values": vals, "categories": lv_present, "ordered": True})
     for name in int_vars:
         nl = draw(st.integers(2, max_levels))
-        codes = draw(st.lists(st.integers(1, nl), min_size=n, max_size=n))
+        codes = draw(st.lists(st.integers(0, nl - 1), min_size=n, max_size=n))
         for i in range(nl):
-            codes[spots[-1 - i]] = i + 1
-        cols.append({"name": name, "kind": "int", "values": codes})
+            codes[spots[-1 - i]] = i
+        cols.append({"name": name, "kind": "int", "values": [int_level(c) for c in codes]})
     for j, name in enumerate(num_vars):
         style = draw(st.sampled_from(list(num_styles)))
         v = weyl(n, j, seed)
